@@ -19,6 +19,7 @@ obtained from — and replayed by the check on — the real implementation).  Wh
   commit leaves every table unchanged (`frame_other_steps`).
 -/
 import RlModel.Thm.C08
+import RlModel.Lemmas.StoreConcRows
 
 namespace RlModel
 namespace SC
@@ -323,13 +324,13 @@ theorem final_state_exact_unconditional_false : ¬ FinalStateExactUnconditional 
   intro h
   exact h deleteAfterCompactionSchedule (by decide) 0 1 (by decide) rfl (by decide) (by decide)
 
-/-- `final_state_exact`, the part that is proved: in a schedule that satisfies the lock
+/-- First half of `final_state_exact`: in a schedule that satisfies the lock
 discipline (`FreshSnapshot` at the moment the compactor / the DELETE prepares its changeset),
 the changeset is the one a sequential execution at that instant produces, and nothing but the
 publishing step of a commit changes any table.  (That a *sequential* compaction leaves the
 multiset of rows unchanged and a sequential DELETE removes exactly the matching rows is the
 sequential storage theorem of C07, not re-proved here.) -/
-theorem final_state_exact {k : K} (h : KInv k) {e t : Nat} (hf : FreshSnapshot k e t) :
+theorem fresh_changesets_sequential {k : K} (h : KInv k) {e t : Nat} (hf : FreshSnapshot k e t) :
     compactPlan? k e t = compactPlan? k k.epoch t
     ∧ (∀ op c, handlers? k e t op c = handlers? k k.epoch t op c)
     ∧ (∀ k', KStep k k' → k'.epoch = k.epoch → ∀ t', curRows k' t' = curRows k t') :=
@@ -378,28 +379,6 @@ theorem applyOps_dels_eq (t n : Nat) : ∀ (dels : List Key) (s : Snap),
 theorem addKeys_dels : ∀ (l : List Key), addKeys (l.map Op.del) = []
   | [] => rfl
   | _ :: r => by simpa [addKeys] using addKeys_dels r
-
-theorem mem_insertSorted {k x : Key} : ∀ {l : List Key}, x ∈ insertSorted k l ↔ x = k ∨ x ∈ l
-  | [] => by simp [insertSorted]
-  | y :: r => by
-      simp only [insertSorted]
-      split
-      · simp
-      · simp only [List.mem_cons, mem_insertSorted (l := r)]
-        constructor
-        · rintro (h | h | h)
-          · exact Or.inr (Or.inl h)
-          · exact Or.inl h
-          · exact Or.inr (Or.inr h)
-        · rintro (h | h | h)
-          · exact Or.inr (Or.inl h)
-          · exact Or.inl h
-          · exact Or.inr (Or.inr h)
-
-theorem mem_sortKeys {x : Key} : ∀ {l : List Key}, x ∈ sortKeys l ↔ x ∈ l
-  | [] => by simp [sortKeys]
-  | y :: r => by
-      simp only [sortKeys, mem_insertSorted, mem_sortKeys (l := r), List.mem_cons]
 
 /-- A compaction commit whose plan was made from the CURRENT snapshot (that is what
 `FreshSnapshot` gives, `fresh_plan_eq`): all row-sets `sel` of table `t`, merged live rows
@@ -517,6 +496,264 @@ theorem compaction_fresh_exact {k k1 k2 : K} (h : KInv k) {th : Tid} {e t n : Na
     ∧ curRows k2 t = some rows ∧ ∀ t', t' ≠ t → curRows k2 t' = curRows k t' := by
   have hp : compactPlan? k k.epoch t = some (some (sel, rows)) := by rw [← fresh_plan_eq hf]; exact hplan
   exact ⟨hp, compaction_commit_exact h hp hnodv hA hB⟩
+
+/-- ... and those merged rows are a permutation of what the table held before: the compaction
+scans the same row-sets in id order instead of snapshot order. -/
+theorem compaction_rows_perm {k : K} {t : Nat} {sel : List Key} {rows r : List Int}
+    (hplan : compactPlan? k k.epoch t = some (some (sel, rows))) (hr : curRows k t = some r) :
+    rows.Perm r := by
+  simp only [compactPlan?] at hplan
+  split at hplan
+  · cases hplan
+  split at hplan
+  · rename_i l hl
+    simp only [Option.some.injEq, Prod.mk.injEq] at hplan
+    obtain ⟨_, hrows⟩ := hplan
+    obtain ⟨l2, h2, hp⟩ := scan?_perm (sortKeys_perm (tableKeys (k.status k.epoch) t)) hl
+    simp only [curRows, rowsAt?, h2, Option.some.injEq] at hr
+    rw [← hrows, ← hr]
+    exact hp.map _
+  · cases hplan
+
+/-! ### exactness of a DELETE commit whose handlers are fresh -/
+
+/-- the snapshot after a DELETE's changeset: same row-sets, one more delete vector per touched
+row-set -/
+def afterDvs (s : Snap) (hs : List (Key × Nat)) (dv0 : Nat) : Snap :=
+  { rs := s.rs, dvs := pushDvs hs dv0 (sortKeys (dedupKeys (hs.map (·.1)))) s.dvs }
+
+/-- A DELETE commit whose row handlers were collected from the CURRENT snapshot (that is what
+`FreshSnapshot` gives, `fresh_handlers_eq`): one delete vector per touched row-set.  Afterwards
+table `t` holds exactly the rows that do not satisfy the predicate (same order), and every other
+table is unchanged. -/
+theorem delete_commit_exact {k k1 k2 : K} {th : Tid} {t dv0 : Nat} {op : DelOp} {c : Int}
+    {hs : List (Key × Nat)} (hh : handlers? k k.epoch t op c = some hs)
+    (hA : kCommitA k th (dvOps dv0 hs (sortKeys (dedupKeys (hs.map (·.1))))) = some k1)
+    (hB : kCommitB k1 th = some k2) :
+    (∀ r, curRows k t = some r → curRows k2 t = some (r.filter (fun v => !op.holds c v)))
+    ∧ ∀ t', t' ≠ t → curRows k2 t' = curRows k t' := by
+  obtain ⟨snap', hsnap, _, he, hst, hpool⟩ := commit_result hA hB
+  rw [applyOps_dvOps] at hsnap
+  cases hsnap
+  replace hst : k2.status (k.epoch + 1) = afterDvs (k.status k.epoch) hs dv0 := hst
+  rw [poolAdds_dvOps, List.nil_append] at hpool
+  -- the handlers
+  simp only [handlers?] at hh
+  split at hh
+  case h_2 => cases hh
+  rename_i l hl
+  simp only [Option.some.injEq] at hh
+  have hmem_hs : ∀ key j, (key, j) ∈ hs ↔ ∃ x ∈ l, op.holds c x.2.2 = true ∧ x.1 = key ∧ x.2.1 = j := by
+    intro key j
+    rw [← hh]
+    simp only [List.mem_map, List.mem_filter, Prod.mk.injEq]
+    constructor
+    · rintro ⟨x, ⟨hx, hp⟩, h1, h2⟩; exact ⟨x, hx, hp, h1, h2⟩
+    · rintro ⟨x, hx, hp, h1, h2⟩; exact ⟨x, ⟨hx, hp⟩, h1, h2⟩
+  -- deleted positions after the commit
+  have hdead : ∀ key j, (deadPos (afterDvs (k.status k.epoch) hs dv0) key).contains j
+      = (((hs.filter (fun h => h.1 == key)).map (·.2)) ++ deadPos (k.status k.epoch) key).contains j := by
+    intro key j
+    simp only [List.contains_eq_mem, deadPos_eq, List.mem_append, mem_positions]
+    apply decide_eq_decide.mpr
+    show j ∈ deadOf (pushDvs hs dv0 (sortKeys (dedupKeys (hs.map (·.1)))) (k.status k.epoch).dvs) key ↔ _
+    rw [mem_deadOf_push]
+    constructor
+    · rintro (h | ⟨_, h⟩)
+      · exact Or.inr h
+      · exact Or.inl h
+    · rintro (h | h)
+      · refine Or.inr ⟨?_, h⟩
+        rw [mem_sortKeys, mem_dedupKeys]
+        exact List.mem_map.mpr ⟨(key, j), h, rfl⟩
+      · exact Or.inl h
+  constructor
+  · intro r hr
+    simp only [curRows, rowsAt?, hl, Option.some.injEq] at hr
+    simp only [curRows, he, hst, hpool, rowsAt?]
+    have htk : tableKeys (afterDvs (k.status k.epoch) hs dv0) t
+        = tableKeys (k.status k.epoch) t := rfl
+    rw [htk]
+    have hf := scan?_filter (pool := k.pool) (s := k.status k.epoch)
+      (s' := (afterDvs (k.status k.epoch) hs dv0))
+      (op.holds c) (keys := tableKeys (k.status k.epoch) t) (l := l) ?_ hl
+    · rw [hf, ← hr]
+      simp only [Option.some.injEq, List.filter_map]
+      rfl
+    · intro key hkey rows hrows
+      rw [liveFrom_congr (hdead key) 0 rows]
+      apply liveFrom_extra
+      intro j v hjv
+      apply Bool.eq_iff_iff.mpr
+      simp only [List.contains_eq_mem, decide_eq_true_eq, mem_positions, hmem_hs]
+      constructor
+      · rintro ⟨x, hx, hp, h1, h2⟩
+        obtain ⟨_, rows', hr', hq⟩ := (mem_scan hl x).mp hx
+        rw [h1] at hr' hq
+        rw [hrows] at hr'
+        cases hr'
+        rw [h2] at hq
+        rw [← liveFrom_fun hq hjv]
+        exact hp
+      · intro hp
+        exact ⟨(key, j, v), (mem_scan hl (key, j, v)).mpr ⟨hkey, rows, hrows, hjv⟩, hp, rfl, rfl⟩
+  · intro t' hne
+    simp only [curRows, he, hst, hpool, rowsAt?]
+    have htk : tableKeys (afterDvs (k.status k.epoch) hs dv0) t'
+        = tableKeys (k.status k.epoch) t' := rfl
+    rw [htk, scan?_live_congr]
+    intro key hkey rows _
+    apply liveFrom_congr
+    intro j
+    rw [hdead key j]
+    have hnone : ∀ j', (key, j') ∉ hs := by
+      intro j' hm
+      obtain ⟨x, hx, _, h1, _⟩ := (hmem_hs key j').mp hm
+      have hxk := ((mem_scan hl x).mp hx).1
+      have h1' : x.1.1 = t := by
+        have := (List.mem_filter.mp hxk).2
+        simpa using this
+      have h2' : key.1 = t' := by
+        have := (List.mem_filter.mp hkey).2
+        simpa using this
+      rw [h1] at h1'
+      exact hne (h2'.symm.trans h1')
+    have : (hs.filter (fun h => h.1 == key)).map (·.2) = [] := by
+      apply List.map_eq_nil_iff.mpr
+      apply List.filter_eq_nil_iff.mpr
+      intro x hx hxe
+      simp only [beq_iff_eq] at hxe
+      have : x = (key, x.2) := by rw [← hxe]
+      rw [this] at hx
+      exact hnone _ hx
+    rw [this, List.nil_append]
+
+/-! ### a compaction whose output is empty (every selected row is deleted) -/
+
+theorem applyOps_dels_other {t t' : Nat} (hne : t' ≠ t) : ∀ (dels : List Key) {s s' : Snap},
+    (∀ d ∈ dels, d.1 = t) → applyOps s (dels.map Op.del) = some s' →
+    tableKeys s' t' = tableKeys s t' ∧ s'.dvs = s.dvs
+  | [], s, s', _, h => by simp only [List.map_nil, applyOps] at h; cases h; exact ⟨rfl, rfl⟩
+  | d :: r, s, s', hd, h => by
+      simp only [List.map_cons, applyOps, applyOp] at h
+      split at h
+      case h_2 => cases h
+      rename_i s1 h1
+      split at h1
+      case isFalse => cases h1
+      cases h1
+      obtain ⟨a, b⟩ := applyOps_dels_other hne r (fun x hx => hd x (List.mem_cons_of_mem _ hx)) h
+      refine ⟨?_, b⟩
+      rw [a]
+      simp only [tableKeys, List.filter_filter]
+      apply List.filter_congr
+      intro x _
+      by_cases hx : x.1 = t'
+      · have : x ≠ d := fun heq => hne (hx.symm.trans (heq ▸ hd d List.mem_cons_self))
+        simp [hx, this]
+      · have : (x.1 == t') = false := beq_false_of_ne hx
+        simp [this]
+
+theorem delKeys_dels : ∀ (l : List Key), delKeys (l.map Op.del) = l
+  | [] => rfl
+  | _ :: r => by simp [delKeys, delKeys_dels r]
+
+theorem poolAdds_dels : ∀ (l : List Key), poolAdds (l.map Op.del) = []
+  | [] => rfl
+  | _ :: r => by simp [poolAdds, poolAdds_dels r]
+
+/-- A compaction with a fresh plan whose merged output is empty (all live rows of the table are
+deleted): the changeset only removes the row-sets; the table is empty afterwards, as it was, and
+every other table is unchanged. -/
+theorem compaction_empty_commit_exact {k k1 k2 : K} {th : Tid} {t : Nat} {sel : List Key}
+    (hplan : compactPlan? k k.epoch t = some (some (sel, [])))
+    (hA : kCommitA k th (sel.map Op.del) = some k1) (hB : kCommitB k1 th = some k2) :
+    curRows k2 t = some [] ∧ ∀ t', t' ≠ t → curRows k2 t' = curRows k t' := by
+  obtain ⟨snap', hsnap, _, he, hst, hpool⟩ := commit_result hA hB
+  rw [poolAdds_dels, List.nil_append] at hpool
+  simp only [compactPlan?] at hplan
+  split at hplan
+  · cases hplan
+  split at hplan
+  case h_2 => cases hplan
+  rename_i l hl
+  simp only [Option.some.injEq, Prod.mk.injEq] at hplan
+  obtain ⟨hsel, _⟩ := hplan
+  have hselmem : ∀ x, x ∈ sel ↔ (x ∈ (k.status k.epoch).rs ∧ x.1 = t) := by
+    intro x
+    rw [← hsel, mem_sortKeys]
+    simp [tableKeys, List.mem_filter]
+  constructor
+  · have hnil : tableKeys snap' t = [] := by
+      apply List.filter_eq_nil_iff.mpr
+      intro x hx hxt
+      simp only [beq_iff_eq] at hxt
+      rcases applyOps_mem _ hsnap hx with h1 | h1
+      · have hxs : x ∈ sel := (hselmem x).mpr ⟨h1, hxt⟩
+        exact applyOps_del _ hsnap (by rw [delKeys_dels]; exact hxs) (by rw [addKeys_dels]; simp) hx
+      · rw [addKeys_dels] at h1; cases h1
+    simp only [curRows, he, hst, rowsAt?, hnil, scan?, List.map_nil]
+  · intro t' hne
+    obtain ⟨a, b⟩ := applyOps_dels_other hne sel (fun d hd => ((hselmem d).mp hd).2) hsnap
+    simp only [curRows, he, hst, hpool, rowsAt?, a]
+    rw [scan?_snap_congr (s1 := snap') (s2 := k.status k.epoch)
+      (fun key => by simp only [deadPos, b])]
+
+/-! ### final_state_exact -/
+
+/-- **C09 under the lock discipline.**  In every state satisfying the invariants (i.e. every
+reachable state of every schedule, `inv_reachable` / `dvinv_reachable`), on any number of tables:
+* the publishing step of an INSERT adds exactly its rows to its table;
+* the publishing step of a DELETE whose scan snapshot is fresh for the table removes exactly the
+  rows satisfying the predicate;
+* the publishing step of a compaction whose pinned snapshot is fresh for the table leaves the
+  table's multiset of rows unchanged (non-empty and empty output);
+* each of them leaves every other table unchanged, and no other step changes any table.
+The only hypothesis besides the changeset being the one the code builds is `FreshSnapshot`. -/
+theorem final_state_exact {k : K} (h : KInv k) (hd : DvInv k) :
+    (∀ th t n vs k1 k2, kCommitA k th [.add (t, n) vs] = some k1 → kCommitB k1 th = some k2 →
+        (∀ r, curRows k t = some r → curRows k2 t = some (vs ++ r))
+        ∧ ∀ t', t' ≠ t → curRows k2 t' = curRows k t')
+    ∧ (∀ th e t dv0 op c hs k1 k2, FreshSnapshot k e t → handlers? k e t op c = some hs →
+        kCommitA k th (dvOps dv0 hs (sortKeys (dedupKeys (hs.map (·.1))))) = some k1 →
+        kCommitB k1 th = some k2 →
+        (∀ r, curRows k t = some r → curRows k2 t = some (r.filter (fun v => !op.holds c v)))
+        ∧ ∀ t', t' ≠ t → curRows k2 t' = curRows k t')
+    ∧ (∀ th e t n sel rows k1 k2, FreshSnapshot k e t →
+        compactPlan? k e t = some (some (sel, rows)) →
+        kCommitA k th (.add (t, n) rows :: sel.map Op.del) = some k1 → kCommitB k1 th = some k2 →
+        (∀ r, curRows k t = some r → ∃ r', curRows k2 t = some r' ∧ r'.Perm r)
+        ∧ ∀ t', t' ≠ t → curRows k2 t' = curRows k t')
+    ∧ (∀ th e t sel k1 k2, FreshSnapshot k e t → compactPlan? k e t = some (some (sel, [])) →
+        kCommitA k th (sel.map Op.del) = some k1 → kCommitB k1 th = some k2 →
+        (∀ r, curRows k t = some r → ∃ r', curRows k2 t = some r' ∧ r'.Perm r)
+        ∧ ∀ t', t' ≠ t → curRows k2 t' = curRows k t')
+    ∧ (∀ k', KStep k k' → k'.epoch = k.epoch → ∀ t, curRows k' t = curRows k t) := by
+  have resvOf : ∀ {th : Tid} {t n : Nat} {ops k1}, kCommitA k th ops = some k1 →
+      (t, n) ∈ addKeys ops → deadPos (k.status k.epoch) (t, n) = [] := by
+    intro th t n ops k1 hA hm
+    simp only [kCommitA] at hA
+    split at hA
+    · cases hA
+    split at hA
+    · cases hA
+    rename_i _ hok
+    have hok : opsOk k th ops = true := by simpa using hok
+    exact reserved_no_dv hd (opsOk_add hok hm)
+  refine ⟨?_, ?_, ?_, ?_, fun _ st he t => frame_other_steps h st he t⟩
+  · intro th t n vs k1 k2 hA hB
+    exact insert_commit_exact h (resvOf hA (by simp [addKeys])) hA hB
+  · intro th e t dv0 op c hs k1 k2 hf hh hA hB
+    rw [fresh_handlers_eq hf] at hh
+    exact delete_commit_exact hh hA hB
+  · intro th e t n sel rows k1 k2 hf hp hA hB
+    rw [fresh_plan_eq hf] at hp
+    obtain ⟨a, b⟩ := compaction_commit_exact h hp (resvOf hA (by simp [addKeys])) hA hB
+    exact ⟨fun r hr => ⟨rows, a, compaction_rows_perm hp hr⟩, b⟩
+  · intro th e t sel k1 k2 hf hp hA hB
+    rw [fresh_plan_eq hf] at hp
+    obtain ⟨a, b⟩ := compaction_empty_commit_exact hp hA hB
+    exact ⟨fun r hr => ⟨[], a, compaction_rows_perm hp hr⟩, b⟩
 
 end SC
 end RlModel
